@@ -163,6 +163,24 @@ Theorem C11_seid_collision_refuted :
 Proof. exact seid_collision. Qed.
 Print Assumptions C11_seid_collision_refuted.
 
+(* the same under the guard that excludes exactly that shape: an accepted establishment that is given another
+   local SEID leaves every FAR / QER slot of the other session as it was (handler level, any state, any request) *)
+Theorem C11_establishment_isolated_partial :
+  forall burst a c nid cpf pdrs fars qers draws a' c' rseid n l cr cmds ms sd m k l1,
+  handle_est burst a c nid cpf pdrs fars qers draws = Done (a', c', Out (Some (REst rseid CAUSE_OK n (Some l) cr)) cmds ms sd) ->
+  l1 <> l -> slot_of_fseid m k l1 ->
+  t_get k (tab_of m (a_tables a')) = t_get k (tab_of m (a_tables a)).
+Proof. exact est_isolated. Qed.
+Print Assumptions C11_establishment_isolated_partial.
+
+(* ... and everything it writes for FARs and QERs carries its own local SEID *)
+Theorem C11_establishment_owned :
+  forall burst a c nid cpf pdrs fars qers draws a' c' rseid n l cr cmds ms sd s,
+  handle_est burst a c nid cpf pdrs fars qers draws = Done (a', c', Out (Some (REst rseid CAUSE_OK n (Some l) cr)) cmds ms sd) ->
+  find_session l (c_sessions c') = Some s -> owned_by l (view (s_fars s)) (view (s_qers s)).
+Proof. exact est_owned. Qed.
+Print Assumptions C11_establishment_owned.
+
 (* ---------------------------------------------------------------- non-vacuity *)
 Example C11_tables_nonvacuous : has_conflict pool_table = true /\ has_conflict up4_guarded_table = true.
 Proof. split; [exact (proj1 pools_nonvacuous)|exact (proj2 (proj2 up4_partial))]. Qed.
